@@ -26,6 +26,8 @@ impl Extensions {
     #[verifier::external_body] pub fn insert<X>(&mut self, v: X) -> (r: Option<X>) { unimplemented!() }
     #[verifier::external_body] pub fn is_empty(&self) -> (r: bool) { unimplemented!() }
 }
+// paths an edit may spell out in full
+pub mod anemo { pub use super::{PeerId, Direction}; pub mod types { pub mod response { pub use super::super::super::{IntoResponse, StatusCode}; } } }
 pub struct Request<T> { pub sender: Option<PeerId>, pub route: Seq<char>, pub body: T, pub ext: Extensions }
 impl<T> Request<T> {
     #[verifier::external_body] pub fn extensions(&self) -> (r: &Extensions) ensures *r == self.ext { unimplemented!() }
